@@ -1466,7 +1466,7 @@ class ForAll(BinaryOperator):
     def condition_unique_variable_ids(self) -> List[int]:
         # literals and predicates are functions of the other variables, they are not bound by the universal statement
         return [v.id_ for v in self.condition._unique_variables_.difference(self.left._unique_variables_)
-                if not isinstance(v.value, Literal) and not v.value._predicate_type_]
+                if not isinstance(v.value, Literal) and not getattr(v.value, "_predicate_type_", None)]
 
     @lru_cache(maxsize=None)
     def _required_variables_from_child_(self, child: Optional[SymbolicExpression] = None, when_true: bool = True):
